@@ -270,4 +270,112 @@ theorem sound_all (env : Env) (fuel : Nat) :
           · simp only [Except.ok.injEq] at h; subst h
             exact sound_finish hne hacc h0 (fun hr => by have := h1 hr; omega) hok
 
+/-! ## inversion of the declarative reading (what a derivation of a given shape must look like) -/
+
+theorem DPat.sym_inv {env : Env} {e : Str} {comp : Comp} {a : Bool} {toks : List Tok} {cs : List Ast}
+    (h : DPat env (.pattern e .symbol comp) a toks cs) : ∃ x, DSym env e toks x ∧ cs = [x] := by
+  cases h with
+  | sym _ _ _ _ c hd => exact ⟨c, hd, rfl⟩
+
+theorem DPat.term_inv {env : Env} {e : Str} {comp : Comp} {a : Bool} {toks : List Tok} {cs : List Ast}
+    (h : DPat env (.pattern e .terminal comp) a toks cs) : ∃ tok, toks = [tok] ∧ cs = [] ∧ compareToken env tok e comp = .ok true := by
+  cases h with
+  | term _ _ _ tok hc => exact ⟨tok, rfl, rfl, hc⟩
+
+theorem DSeq.nil_inv {env : Env} {toks : List Tok} {cs : List Ast} (h : DSeq env [] toks cs) : toks = [] ∧ cs = [] := by
+  cases h; exact ⟨rfl, rfl⟩
+
+theorem DSeq.cons_inv {env : Env} {p : Pat} {ps : List Pat} {toks : List Tok} {cs : List Ast} (h : DSeq env (p :: ps) toks cs) :
+    ∃ t1 c1 t2 c2, DPat env p true t1 c1 ∧ DSeq env ps t2 c2 ∧ toks = t1 ++ t2 ∧ cs = c1 ++ c2 := by
+  cases h with
+  | cons _ _ t1 c1 t2 c2 hp hs => exact ⟨t1, c1, t2, c2, hp, hs, rfl, rfl⟩
+
+/-- a sequence group read as ONE repetition / without marker is the sequence of its entries -/
+theorem DPat.and_inv {env : Env} {es : List Pat} {rep : Rep} {a : Bool} {toks : List Tok} {cs : List Ast}
+    (h : DPat env (.group es .and rep) a toks cs) (hc : rep = .noRepeat ∨ a = false) : DSeq env es toks cs := by
+  cases h with
+  | and _ _ _ _ _ _ hs => exact hs
+  | rep _ _ _ n _ cs' hcnt hit =>
+    rcases hc with hc | hc
+    · subst hc; exact absurd hcnt (by simp [repCount])
+    · cases hc
+
+/-- `( … )?` derives nothing (no tokens, no children) or one repetition of its body -/
+theorem DPat.opt_inv {env : Env} {es : List Pat} {op : Op} {toks : List Tok} {cs : List Ast}
+    (h : DPat env (.group es op .oneOrZero) true toks cs) :
+    (toks = [] ∧ cs = []) ∨ DPat env (.group es op .oneOrZero) false toks cs := by
+  cases h with
+  | rep _ _ _ n _ cs' hcnt hit =>
+    have hn : n ≤ 1 := hcnt
+    cases hit with
+    | zero => left; exact ⟨rfl, by simp [repChildren]⟩
+    | succ _ _ _ m t1 c1 t2 c2 hb hrest =>
+      have hm : m = 0 := by omega
+      subst hm
+      cases hrest with
+      | zero =>
+        right
+        simpa [repChildren] using hb
+  | or _ _ _ p _ _ hc _ _ => rcases hc with hc | hc <;> cases hc
+  | and _ _ _ _ _ hc _ => rcases hc with hc | hc <;> cases hc
+
+/-- the pattern of a rule `( G )? N`: an optional prefix group before the symbol `N` -/
+def optPrefix (G : List Pat) (N : Str) : Pat :=
+  .group [.group G .and .oneOrZero, .pattern N .symbol .noComp] .and .noRepeat
+
+/-- A derivation of `( G )? N` is a derivation of `N` alone, or the sequence `G` followed by a derivation of `N`. -/
+theorem optPrefix_inv {env : Env} {G : List Pat} {N : Str} {a : Bool} {toks : List Tok} {cs : List Ast}
+    (h : DPat env (optPrefix G N) a toks cs) :
+    (∃ x, DSym env N toks x ∧ cs = [x]) ∨
+    (∃ t1 c1 t2 x, DSeq env G t1 c1 ∧ DSym env N t2 x ∧ toks = t1 ++ t2 ∧ cs = c1 ++ [x]) := by
+  have hs := DPat.and_inv h (Or.inl rfl)
+  obtain ⟨t1, c1, t2, c2, hp, hrest, ht, hc⟩ := DSeq.cons_inv hs
+  obtain ⟨t3, c3, t4, c4, hn, hnil, ht2, hc2⟩ := DSeq.cons_inv hrest
+  obtain ⟨h4, h4'⟩ := DSeq.nil_inv hnil
+  obtain ⟨x, hx, hcx⟩ := DPat.sym_inv hn
+  subst h4 h4' hcx
+  simp only [List.append_nil] at ht2 hc2
+  subst ht2 hc2
+  rcases DPat.opt_inv hp with ⟨h1, h2⟩ | hb
+  · left
+    subst h1 h2
+    exact ⟨x, by simpa using ht ▸ hx, by simpa using hc⟩
+  · right
+    exact ⟨t1, c1, _, x, DPat.and_inv hb (Or.inr rfl), hx, ht, hc⟩
+
+/-- a symbol whose rule is a (non-terminal) pattern `p` derives what `p` derives, wrapped by `_unwrap_children` -/
+theorem DSym.rule_inv {env : Env} {sym : Str} {p : Pat} {toks : List Tok} {c : Ast}
+    (h : DSym env sym toks c) (hr : getRule env.rules sym = .ok p) (hnt : ∀ e comp, p ≠ .pattern e .terminal comp) :
+    ∃ cs, DPat env p true toks cs ∧ c = unwrapChildren env.rules sym cs := by
+  cases h with
+  | terminal _ e comp tok hr' _ =>
+    rw [hr] at hr'
+    simp only [Except.ok.injEq] at hr'
+    exact absurd hr' (hnt e comp)
+  | rule _ p' _ cs hr' _ hd =>
+    rw [hr] at hr'
+    simp only [Except.ok.injEq] at hr'
+    subst hr'
+    exact ⟨cs, hd, rfl⟩
+
+/-- a symbol whose rule is one bare terminal derives exactly one matching token, as the leaf `(sym, token)` -/
+theorem DSym.terminal_inv {env : Env} {sym e : Str} {comp : Comp} {toks : List Tok} {c : Ast}
+    (h : DSym env sym toks c) (hr : getRule env.rules sym = .ok (.pattern e .terminal comp)) :
+    ∃ tok, toks = [tok] ∧ c = .token sym tok ∧ compareToken env tok e comp = .ok true := by
+  cases h with
+  | terminal _ e' comp' tok hr' hc =>
+    rw [hr] at hr'
+    simp only [Except.ok.injEq, Pat.pattern.injEq, true_and] at hr'
+    obtain ⟨he, hcomp⟩ := hr'
+    subst he hcomp
+    exact ⟨tok, rfl, rfl, hc⟩
+  | rule _ p' _ cs hr' hnt _ =>
+    rw [hr] at hr'
+    simp only [Except.ok.injEq] at hr'
+    exact absurd hr'.symm (hnt e comp)
+
+theorem compareToken_equals {env : Env} {tok : Tok} {e : Str} (h : compareToken env tok e .equals = .ok true) : tok.str = e := by
+  simp only [compareToken, Except.ok.injEq, beq_iff_eq] at h
+  exact h.symm
+
 end Tranp.Engine
